@@ -17,6 +17,7 @@ import (
 	"path/filepath"
 	"strconv"
 	"strings"
+	"sync/atomic"
 	"time"
 
 	"github.com/andybalholm/brotli"
@@ -48,6 +49,7 @@ type pscript struct {
 	flushFirst bool // Flush before the first Write (as streaming handlers and proxies do)
 	accel      bool // the handler answers with X-Accel-Redirect to an internal location (and, as proxies do, may flush)
 	hints      bool // an informational 103 Early Hints response before the final one
+	again      int  // a superfluous WriteHeader call, which net/http ignores: 1 straight after the first, 2 after the first Write
 	copyMode   int  // 0 Write; 1 io.Copy from a plain Reader (ReadFrom where offered); 2 io.Copy from a WriterTo; 3 io.WriteString
 	panicAt    int  // -1: never; k: before write k (0 = before anything is written); len(writes): after all writes
 	readBody   bool
@@ -82,6 +84,8 @@ type siteRig struct {
 	c    *sim.Ctl
 	st   *sim.Stream
 	mode string // C12 | C18 | C20 | C17
+
+	ownSuperfluous int64 // superfluous WriteHeader calls the scripted handlers made themselves
 
 	root        string
 	logFile     string
@@ -265,6 +269,11 @@ func (r *siteRig) probe(label string, next httpserver.Handler, w http.ResponseWr
 	if sc.explicit {
 		park("header")
 		w.WriteHeader(sc.status)
+		if sc.again == 1 {
+			c.Probe("superfluous-writeheader")
+			atomic.AddInt64(&r.ownSuperfluous, 1)
+			w.WriteHeader([]int{sc.status, 500}[len(id)%2])
+		}
 	}
 	if sc.flushFirst && len(writes) > 0 {
 		park("flush-first")
@@ -296,6 +305,11 @@ func (r *siteRig) probe(label string, next httpserver.Handler, w http.ResponseWr
 			if f, ok := w.(http.Flusher); ok {
 				f.Flush()
 			}
+		}
+		if sc.again == 2 && i == 0 && len(b) > 0 { // (an io.Copy of nothing calls no Write and commits nothing)
+			c.Probe("superfluous-writeheader")
+			atomic.AddInt64(&r.ownSuperfluous, 1)
+			w.WriteHeader(500)
 		}
 	}
 	if sc.panicAt == len(writes) && len(writes) > 0 {
@@ -897,11 +911,14 @@ func (r *siteRig) genReq(id, site string) *sreq {
 			sc.copyMode = 1 + st.Draw(3)
 		}
 		sc.hints = pick(7)
+		if pick(6) {
+			sc.again = 1 + st.Draw(2)
+		}
 		if r.hasInternal && pick(12) && q.method == "GET" && r.mode != "C18" {
 			sc.accel = true
 			sc.status = []int{200, 404, 201}[st.Draw(3)]
 			sc.flushFirst = pick(50)
-			sc.hints, sc.retErr, sc.preCE, sc.etag, sc.setCL = false, false, "", "", false
+			sc.hints, sc.retErr, sc.preCE, sc.etag, sc.setCL, sc.again = false, false, "", "", false, 0
 			sc.writes, sc.flush = [][]byte{[]byte("INTERNAL-CONTENT-FOR-" + id)}, []bool{false}
 		}
 		if pick(8) && sc.status != 204 && sc.status != 304 && !sc.accel {
@@ -1095,8 +1112,8 @@ func (r *siteRig) judge() {
 			anyAbort = true
 		}
 	}
-	if superfluous > 0 && !anyPanicAfterWrite && !anyAbort && mode != "C19" {
-		c.Violate("C12/header-committed-twice", r.dirSig(), "net/http reported %d superfluous WriteHeader calls although no handler panicked after writing and no client aborted: %s", superfluous, firstMatching(procLog, "superfluous"))
+	if superfluous > int(atomic.LoadInt64(&r.ownSuperfluous)) && !anyPanicAfterWrite && !anyAbort && mode != "C19" {
+		c.Violate("C12/header-committed-twice", r.dirSig(), "net/http reported %d superfluous WriteHeader calls (the scripted handlers made %d) although no handler panicked after writing and no client aborted: %s", superfluous, atomic.LoadInt64(&r.ownSuperfluous), firstMatching(procLog, "superfluous"))
 	}
 	for _, q := range r.reqs {
 		h := q.conn
@@ -1224,7 +1241,7 @@ func (sc *pscript) describe() string {
 	for _, b := range sc.writes {
 		tot += len(b)
 	}
-	return fmt.Sprintf("{%s status=%d err=%v writes=%d(%dB) explicit=%v CL=%v CE=%q ctype=%q panicAt=%d readBody=%v flushFirst=%v copy=%d hints=%v}", sc.mode, sc.status, sc.retErr, len(sc.writes), tot, sc.explicit, sc.setCL, sc.preCE, sc.ctype, sc.panicAt, sc.readBody, sc.flushFirst, sc.copyMode, sc.hints)
+	return fmt.Sprintf("{%s status=%d err=%v writes=%d(%dB) explicit=%v CL=%v CE=%q ctype=%q panicAt=%d readBody=%v flushFirst=%v copy=%d hints=%v again=%d}", sc.mode, sc.status, sc.retErr, len(sc.writes), tot, sc.explicit, sc.setCL, sc.preCE, sc.ctype, sc.panicAt, sc.readBody, sc.flushFirst, sc.copyMode, sc.hints, sc.again)
 }
 
 func (r *siteRig) dirSig() string {
